@@ -287,6 +287,37 @@ pub fn run(name: &str) -> R {
             }
             Ok(format!("a single read fault at each of {total} positions never produces wrong bytes"))
         }
+        // F1 (C01/C02/C03): creating an object below a stream must be refused
+        "c01_create_under_stream_is_refused" => {
+            let mut c = CompoundFile::create_with_version(Version::V3, Cursor::new(Vec::new())).unwrap();
+            { let mut s = c.create_stream("/foo").unwrap(); s.write_all(b"data").unwrap(); }
+            let r1 = c.create_storage("/foo/bar").map_err(|e| e.kind());
+            let r2 = c.create_stream("/foo/baz").map(|_| ()).map_err(|e| e.kind());
+            if r1.is_ok() || r2.is_ok() {
+                let img = c.into_inner().into_inner();
+                let reopen = CompoundFile::open_strict(Cursor::new(img)).map(|_| ()).map_err(|e| e.to_string());
+                return Some(Err(format!("create_storage(\"/foo/bar\") -> {r1:?}, create_stream(\"/foo/baz\") -> {r2:?} although /foo is a stream; strict reopen: {reopen:?}")));
+            }
+            Ok(format!("refused: {r1:?}, {r2:?}"))
+        }
+        // F3 (C09): invalid names are rejected with InvalidInput at creation and nothing changes
+        "c09_invalid_names_are_rejected" => {
+            let mut out = Vec::new();
+            for name in ["a:b", "a!b", "a\\b", &"x".repeat(32), &"\u{10000}".repeat(16)] {
+                let mut c = CompoundFile::create_with_version(Version::V3, Cursor::new(Vec::new())).unwrap();
+                let before = { c.flush().unwrap(); let v = c.into_inner().into_inner(); v };
+                let mut c = CompoundFile::open(Cursor::new(before.clone())).unwrap();
+                let path = format!("/{name}");
+                let r1 = c.create_storage(&path).map_err(|e| e.kind());
+                let r2 = c.create_stream(&path).map(|_| ()).map_err(|e| e.kind());
+                let after = c.into_inner().into_inner();
+                if r1 != Err(std::io::ErrorKind::InvalidInput) || r2 != Err(std::io::ErrorKind::InvalidInput) || after != before {
+                    return Some(Err(format!("name {name:?}: create_storage -> {r1:?}, create_stream -> {r2:?}, file changed: {}", after != before)));
+                }
+                out.push(format!("{name:?} refused"));
+            }
+            Ok(out.join("; "))
+        }
         // F9 (C15): a create / write 100 bytes / remove cycle must not grow the file from the second repetition on
         "c15_small_stream_cycle_does_not_grow" => {
             let mut out = Vec::new();
